@@ -31,6 +31,7 @@ var registry = []*HarnessSpec{
 	{Prop: "C03", Name: "zzH03route", Pkg: pkgConfig, Tier: "quick", Bounds: "one static route stanza: any accepted prefix, lifetime of every accepted shape, preference"},
 	{Prop: "C03", Name: "zzH03dns", Pkg: pkgConfig, Tier: "quick", Bounds: "one rdnss stanza (one symbolic server) or one dnssl stanza (one concrete name), lifetime of every accepted shape"},
 	{Prop: "C03", Name: "zzH03misc", Pkg: pkgConfig, Tier: "quick", Bounds: "mtu any accepted value; source LLA absent or a symbolic Ethernet address; pref64 absent / default / any parsable prefix string"},
+	{Prop: "C01", Name: "zzH01a", Pkg: pkgConfig, Tier: "quick", Unwind: 200, Bounds: "one stanza of every kind parsed by the real parser; 1-2 interface addresses (one fully symbolic), one loopback route, MAC present/absent, forwarding, clock and epoch symbolic; RA built twice"},
 	{Prop: "C01", Name: "zzH14b", Pkg: pkgConfig, Tier: "quick", Params: map[string]int{"static": 2, "repeats": 3}, Bounds: "idempotence / purity for an rdnss stanza (:: plus 2 static servers) parsed by the real parser; RA built 3 times"},
 	{Prop: "C14", Name: "zzH14b", Pkg: pkgConfig, Tier: "quick", Params: map[string]int{"static": 2, "repeats": 3}, Bounds: "stanza with :: at any position among 2 symbolic static servers, parsed by the real parseRDNSS; RA built 3 times"},
 	{Prop: "C02", Name: "zzH02interval", Pkg: pkgConfig, Tier: "quick", Bounds: "max_interval / min_interval of every shape (absent, auto, infinite, unparsable, any int64 ns value)"},
